@@ -49,6 +49,7 @@ var (
 	sweep     = flag.Int64("sweep", 0, "run the length sweep instead of random mutants: size constants of the write path up to this value, +-32 bytes")
 	sweepPart = flag.String("sweeppart", "0/1", "k/n: the k-th of n slices of the write commands for the length sweep")
 	statePart = flag.String("statepart", "", "k/n: slice of the state sequences (default: the same as -sweeppart); every expiration policy should see all of them")
+	bigPart   = flag.String("bigpart", "all", "with -big: a = dictionary, pipelined groups, MAX_BATCH_NUM classes; b = many collections, big lists; all")
 	sweepFull = flag.Bool("sweepfull", false, "length sweep: every constant also in the field/member and key positions")
 	useV2     = flag.Bool("v2", false, "live server with use_redis_v2 (raw command proposed, namespace cut at apply)")
 	avoid     = flag.String("avoid", "", "comma separated signatures of OPEN known findings whose inputs are not executed (they would take the harness down)")
@@ -207,11 +208,16 @@ func main() {
 			}
 		}
 		if *big {
-			vecs = append(vecs, dictionarySweep(names)...)
-			vecs = append(vecs, liveCollectionBig()...)
-			vecs = append(vecs, manyCollections()...)
-			vecs = append(vecs, bigListRegrow()...)
-			bv := bigVectors()
+			var bv []vector
+			if *bigPart != "b" {
+				vecs = append(vecs, dictionarySweep(names)...)
+				vecs = append(vecs, liveCollectionBig()...)
+				bv = bigVectors()
+			}
+			if *bigPart != "a" {
+				vecs = append(vecs, manyCollections()...)
+				vecs = append(vecs, bigListRegrow()...)
+			}
 			// spread them over the run
 			for i, v := range bv {
 				pos := (i + 1) * len(vecs) / (len(bv) + 1)
@@ -541,7 +547,7 @@ func main() {
 		}
 	}
 
-	if *big && *replay == "" {
+	if *big && *replay == "" && *bigPart != "b" {
 		for gi, group := range pipelineGroups(names) {
 			step(fmt.Sprintf("pipeline:g%d", gi))
 			var hs []string
